@@ -104,6 +104,39 @@ fn field_diff(o: &LocaleModel, m: &LocaleModel) -> &'static str {
     }
 }
 
+/// the adapters of an `ExactSizeIterator` getter must tell one story: `len`, `size_hint`, `count`,
+/// `last`, `nth` and the length after one `next` against the collected sequence
+fn iter_laws<I, T>(make: impl Fn() -> I) -> Option<String>
+where
+    I: ExactSizeIterator<Item = T>,
+    T: PartialEq + std::fmt::Debug,
+{
+    let all: Vec<T> = make().collect();
+    let n = all.len();
+    if make().len() != n {
+        return Some(format!("len() = {} but the iterator yields {n} items", make().len()));
+    }
+    if make().size_hint() != (n, Some(n)) {
+        return Some(format!("size_hint() = {:?} for {n} items", make().size_hint()));
+    }
+    if make().count() != n {
+        return Some(format!("count() = {} for {n} items", make().count()));
+    }
+    if make().last().as_ref() != all.last() {
+        return Some(format!("last() = {:?}, collected last {:?}", make().last(), all.last()));
+    }
+    for k in [0, n / 2, n.saturating_sub(1), n] {
+        if make().nth(k).as_ref() != all.get(k) {
+            return Some(format!("nth({k}) = {:?}, collected {:?}", make().nth(k), all.get(k)));
+        }
+    }
+    let mut it = make();
+    if it.next().is_some() && it.len() != n - 1 {
+        return Some(format!("len() after one next() = {} for {n} items", it.len()));
+    }
+    None
+}
+
 /// Runs one history; returns the end state (None if the start did not parse or a step panicked).
 pub fn check_history(lr: &LikelyRef, start: &[u8], ops_: &[Op], st: &mut Stats, mode: Count) -> Option<Locale> {
     let mut out = None;
@@ -247,6 +280,30 @@ fn check_history_inner(lr: &LikelyRef, start: &[u8], ops_: &[Op], st: &mut Stats
                 if !loc.id.has_variant(v) {
                     bad.push("has_variant(member)");
                 }
+            }
+        }
+        let laws = [
+            ("variants()", iter_laws(|| loc.id.variants())),
+            ("attributes()", iter_laws(|| e.unicode.attributes())),
+            ("keyword_keys()", iter_laws(|| e.unicode.keyword_keys())),
+            ("tfield_keys()", iter_laws(|| e.transform.tfield_keys())),
+            ("tags()", iter_laws(|| e.private.tags())),
+        ];
+        let mut laws: Vec<(&str, Option<String>)> = laws.into_iter().collect();
+        for k in m.keywords.keys().take(3) {
+            if e.unicode.keyword(k.as_str()).is_ok() {
+                laws.push(("keyword(key)", iter_laws(|| e.unicode.keyword(k.as_str()).ok().unwrap())));
+            }
+        }
+        for k in m.tfields.keys().take(3) {
+            if e.transform.tfield(k.as_str()).is_ok() {
+                laws.push(("tfield(key)", iter_laws(|| e.transform.tfield(k.as_str()).ok().unwrap())));
+            }
+        }
+        for (what, l) in laws {
+            if let Some(why) = l {
+                st.fail(format!("iterator-adapters:{what}"), case(), size, format!("after step {i} {op:?}: {what}: {why}"));
+                return None;
             }
         }
         if !bad.is_empty() {
